@@ -311,7 +311,7 @@ fn gen_mat<G: GenSc>(rng: &mut Rng, mode: Mode, n: usize, nz: bool) -> Val<G> {
         match rng.below(3) {
             0 => { let (i, j) = (rng.below(n), rng.below(n)); if i != j { e[i] = e[j].clone(); } }
             1 => { let r = rng.below(n); for col in e.iter_mut() { col[r] = G::from_i(0); } }
-            _ => { if n >= 3 { let k = gen_s::<G>(rng, Mode::Ring, true); for r in 0..n { let v = e[0][r] + e[1][r] * k; e[2][r] = v; } } }
+            _ => { if n >= 3 { let k = gen_s::<G>(rng, if mode == Mode::Field { Mode::Ring } else { mode }, true); for r in 0..n { let v = e[0][r] + e[1][r] * k; e[2][r] = v; } } }
         }
     }
     match n {
